@@ -46,6 +46,8 @@ ALPHABET = [
     ["filter", [["ge", src("T", "k"), lit(2)]]],
     ["join", {"src": "R"}, "left", [["eq", src("T", "k"), src("R", "k")]]],  # suffixes k and x of R
     ["join", {"src": "R"}, "inner", [["eq", Cn("y"), src("R", "x")]]],
+    # equality and inequality: R.k of a left row without a partner is null, not the value of T.k
+    ["join", {"src": "R"}, "left", [["and", ["eq", src("T", "k"), src("R", "k")], ["gt", src("T", "y"), ["mul", src("R", "x"), lit(20)]]]]],
     ["join", {"src": "T", "hist": [["group_by", [src("T", "k")]], ["summarize", [["m", ["max", src("T", "y")]]]], ["alias"]]}, "left",
      [["eq", src("T", "k"), ["col", "right", "k"]]]],  # the right operand dropped x and y: T.x / T.y must keep denoting the left columns
     ["alias", None, True],
